@@ -9,6 +9,7 @@ import (
 	"encoding/hex"
 	"encoding/json"
 	"fmt"
+	"math"
 	"os"
 	"path/filepath"
 	"strings"
@@ -112,6 +113,12 @@ func run(c *core.Ctx) int {
 			for _, cache := range []int{0, 1} {
 				add(pcase{Directed: "deep-tail-calls", P: point{Cache: cache, Listeners: l, Compiler: e == 1, CloseCtx: l%2 == 1}})
 			}
+		}
+	}
+	// directed program: kernels with more live values than registers across loop headers and runtime-assisted operations
+	for _, p := range pts {
+		if p.Cache <= 1 && !p.Guard {
+			add(pcase{Directed: "register-pressure", P: p})
 		}
 	}
 	// stage 1: prime the warm directories in separate processes
@@ -257,6 +264,9 @@ func child(mode string, in json.RawMessage) any {
 	var script []wrun.Step
 	if pc.Directed == "deep-tail-calls" {
 		p, script = deepTailCalls()
+		cfg = p.Cfg
+	} else if pc.Directed == "register-pressure" {
+		p, script = registerPressure()
 		cfg = p.Cfg
 	} else {
 		p = wgen.Generate(r, cfg)
@@ -432,6 +442,86 @@ func deepTailCalls() (*wgen.Program, []wrun.Step) {
 	p := &wgen.Program{Bin: m.Encode(), Cfg: wgen.Config{TailCall: true, Fuel: 1}, OpsUsed: map[string]int{"return_call": 1},
 		Funcs: []wgen.FuncSig{{Params: i32, Results: i32}, {Params: i32, Results: i32}}, FuncIndex: map[string]uint32{"f0": f0, "f1": f1}, Types: m.Types, Mod: m}
 	return p, []wrun.Step{{Kind: "call", Fn: "f0", Args: []uint64{5000000}}, {Kind: "call", Fn: "f1", Args: []uint64{5000000}}, {Kind: "call", Fn: "f0", Args: []uint64{3}}}
+}
+
+// registerPressure builds kernels that keep 24 f64, 12 i64 and 2 v128-free accumulators live across a loop header (more than
+// the machine has registers, so every allocatable register including the callee-saved ones is in use) with one
+// runtime-assisted operation inside the loop: nothing (the loop header itself carries the close-on-context-done check),
+// memory.grow 0, table.grow 0 + ref.func, a host call, a call to a small wasm function (listener trampolines). Whatever the
+// runtime inserts at a configuration point must preserve all of them.
+func registerPressure() (*wgen.Program, []wrun.Step) {
+	m := &wenc.Module{}
+	i32, i64, f64 := wenc.I32, wenc.I64, wenc.F64
+	h0 := m.ImportFunc("env", "h0", []wenc.ValType{i64}, nil)
+	m.Tables = []wenc.TableType{{Elem: wenc.FuncRef, Lim: wenc.Limits{Min: 2, Max: 8, HasMax: true}}}
+	m.Mems = []wenc.Limits{{Min: 1, Max: 2, HasMax: true}}
+	idc := &wenc.Code{}
+	idc.LocalGet(0).F64Const(math.Float64bits(0.75)).Op(0xa2).End()
+	id := m.AddFunc([]wenc.ValType{f64}, []wenc.ValType{f64}, nil, idc.B)
+	const nf, ni = 24, 12
+	var locals []wenc.ValType
+	for k := 0; k < nf; k++ {
+		locals = append(locals, f64)
+	}
+	for k := 0; k < ni; k++ {
+		locals = append(locals, i64)
+	}
+	locals = append(locals, i32)
+	a := func(k int) uint32 { return uint32(1 + k%nf) }
+	b := func(k int) uint32 { return uint32(1 + nf + k%ni) }
+	ctr := uint32(1 + nf + ni)
+	p := &wgen.Program{Cfg: wgen.Config{Fuel: 1}, OpsUsed: map[string]int{"register-pressure": 1}, FuncIndex: map[string]uint32{},
+		Host: []wgen.HostImport{{Name: "h0", Kind: "log", Params: []wenc.ValType{i64}}}}
+	var steps []wrun.Step
+	for v := 0; v < 5; v++ {
+		c := &wenc.Code{}
+		for k := 0; k < nf; k++ {
+			c.F64Const(math.Float64bits(float64(k) + 1.5)).LocalSet(a(k))
+		}
+		for k := 0; k < ni; k++ {
+			c.I64Const(int64(k*7 + 3)).LocalSet(b(k))
+		}
+		c.Loop(0x40)
+		for k := 0; k < nf; k++ {
+			c.LocalGet(a(k)).F64Const(math.Float64bits(0.5)).Op(0xa2).LocalGet(a(k + 1)).F64Const(math.Float64bits(0.25)).Op(0xa2).Op(0xa0).F64Const(math.Float64bits(1)).Op(0xa0).LocalSet(a(k))
+		}
+		for k := 0; k < ni; k++ {
+			c.LocalGet(b(k)).I64Const(31).Op(0x7e).LocalGet(b(k + 1)).Op(0x85).LocalSet(b(k))
+		}
+		switch v {
+		case 1:
+			c.I32Const(0).MemoryGrow().Drop()
+		case 2:
+			c.RefNull(wenc.FuncRef).I32Const(0).Prefixed(0xfc, 15).U32(0).Drop()
+			c.RefFunc(id).Drop()
+		case 3:
+			c.LocalGet(b(0)).Call(h0)
+		case 4:
+			c.LocalGet(a(0)).Call(id).LocalSet(a(0))
+		}
+		c.LocalGet(ctr).I32Const(1).Op(0x6a).LocalTee(ctr).LocalGet(0).Op(0x49).BrIf(0)
+		c.End()
+		c.LocalGet(a(0))
+		for k := 1; k < nf; k++ {
+			c.LocalGet(a(k)).Op(0xa0)
+		}
+		c.LocalGet(b(0))
+		for k := 1; k < ni; k++ {
+			c.LocalGet(b(k)).Op(0x85)
+		}
+		c.Op(0xb9).Op(0xa0).End()
+		fi := m.AddFunc([]wenc.ValType{i32}, []wenc.ValType{f64}, locals, c.B)
+		name := fmt.Sprintf("f%d", v)
+		m.ExportFunc(name, fi)
+		p.Funcs = append(p.Funcs, wgen.FuncSig{Params: []wenc.ValType{i32}, Results: []wenc.ValType{f64}})
+		p.FuncIndex[name] = fi
+		steps = append(steps, wrun.Step{Kind: "call", Fn: name, Args: []uint64{uint64(3 + 7*v)}})
+	}
+	m.Elems = []wenc.Elem{{Mode: 2, FuncIdx: []uint32{id}}} // declarative: ref.func id is allowed
+	m.ExportFunc("__setfuel", m.AddFunc([]wenc.ValType{i32}, nil, nil, (&wenc.Code{}).End().B))
+	m.Exports = append(m.Exports, wenc.Export{Name: "mem", Kind: wenc.ExtMemory})
+	p.Bin, p.Types, p.Mod = m.Encode(), m.Types, m
+	return p, steps
 }
 
 // culprit finds a single option that alone reproduces a difference (for the signature).
